@@ -600,7 +600,13 @@ DataView dataSlice(const DataArray &array, const std::vector<double> &start, con
     }
 
     NDSize count(my_start.size(), 1), offset(my_start.size(), 0);
+    NDSize shape = array.dataExtent();
     for (size_t i = 0; i < my_start.size(); i++) {
+        if (i >= start.size() && i >= end.size() && i < shape.size()) {
+            // dimension not specified: included in full, whatever the range matching
+            count[i] = shape[i];
+            continue;
+        }
         Dimension dim = array.getDimension(i+1);
         if (my_start[i] > my_end[i]) {
             throw std::invalid_argument("Start position must not be larger than end position.");
